@@ -70,6 +70,9 @@ def build(d):
     comps = []
     for ci, comp in enumerate(d["components"]):
         tmpl = make_template(comp["seed"], comp["shape"], dense=bool(comp.get("dense")))
+        if d.get("template_dtype", "float32") != "float32":
+            # integer-valued template handed over in an integer dtype: the same density, interpolated as real numbers
+            tmpl = np.round(tmpl * 20.0).astype(d["template_dtype"])
         pos, rots = [], []
         for m in comp["mols"]:
             pos.append(m["pos_px"])
@@ -288,6 +291,7 @@ def cases(draw):
         mols = [draw(mol_pose(shape, vol, only_grid=dense)) for _ in range(draw(st.integers(1, 4)))]
         comps.append({"shape": shape, "seed": draw(gen.seeds), "mols": mols, "dense": dense})
     return {"vol": vol, "components": comps, "template_as": draw(st.sampled_from(["array", "array", "provider"])),
+            "template_dtype": draw(st.sampled_from(["float32", "float32", "float32", "int16", "uint8"])),
             "history": draw(st.sampled_from([False, False, True])), "order": draw(st.sampled_from([0, 1, 3, 3])), "scale": draw(st.one_of(gen.scales, st.sampled_from([0.2, 0.25, 0.3, 1.3, 0.6, 2.7])))}
 
 
